@@ -49,6 +49,10 @@ def run(ck, ctx):
     ck.rule("R13.14", _c06t.DELTA_TEXT + " (shared with C06 R06.10: compaction keeps one delta per key, so a partial delta erases the rest of the value)")
     from . import c12 as _c12i
     ck.rule("R13.16", _c12i.IDS_TEXT + " (shared with C12 R12.11: compaction is one of the two writers of the counter)")
+    ck.rule("R13.18", "recovery folds what the segments hold, by stamp: the recovery manager loads every listed segment and hands over every delta it decoded "
+                      "(the only filter is `id > checkpoint id` when a checkpoint was loaded) - it does not pre-select 'the newest delta per key' by "
+                      "segment id: compaction gives its output the newest id although it carries the oldest data, so such a shortcut changes the "
+                      "recovered state exactly when a compaction has run (shared with C11 R11.2)")
     ck.rule("R13.17", "compaction deletes only what it folded: the key handed to ObjectStore::delete in compaction code comes from the segment entries "
                       "compaction itself read and unlisted - never from a listing of the store (an object that no manifest references *yet* is a "
                       "concurrent flush's freshly uploaded segment: its manifest save follows, and then lists an object that is gone)")
@@ -78,6 +82,9 @@ def run(ck, ctx):
         _c06.r0610(ck, prog, cfg, "R13.14")
         c12.ids_rule(ck, prog, cfg, "R13.16")
         _r1317(ck, prog, cfg)
+        from . import c11 as _c11
+        from .core import Only as _Only11
+        _c11._r112(_Only11(ck, {"R11.2": "R13.18"}), prog, cfg)
 
 
 def _wall_clock_locals(fn):
